@@ -290,6 +290,7 @@ Notes:
             for k in range(0,N):
                 y = numpy.array(x0,copy=True)
                 y[k] = val[k]
+                y = asarray(constraints(y), dtype='float64')
                 sim[k+1] = y
                 f = cost(y) #XXX: use self._map?
                 fsim[k+1] = f
@@ -305,11 +306,13 @@ Notes:
 
             xbar = numpy.add.reduce(sim[:-1],0) / N
             xr = (1+rho)*xbar - rho*sim[-1]
+            xr = asarray(constraints(xr), dtype='float64')
             fxr = cost(xr)
             doshrink = 0
 
             if fxr < fsim[0]:
                 xe = (1+rho*chi)*xbar - rho*chi*sim[-1]
+                xe = asarray(constraints(xe), dtype='float64')
                 fxe = cost(xe)
 
                 if fxe < fxr:
@@ -326,6 +329,7 @@ Notes:
                     # Perform contraction
                     if fxr < fsim[-1]:
                         xc = (1+psi*rho)*xbar - psi*rho*sim[-1]
+                        xc = asarray(constraints(xc), dtype='float64')
                         fxc = cost(xc)
     
                         if fxc <= fxr:
@@ -336,6 +340,7 @@ Notes:
                     else:
                         # Perform an inside contraction
                         xcc = (1-psi)*xbar + psi*sim[-1]
+                        xcc = asarray(constraints(xcc), dtype='float64')
                         fxcc = cost(xcc)
 
                         if fxcc < fsim[-1]:
@@ -347,6 +352,7 @@ Notes:
                     if doshrink:
                         for j in one2np1:
                             sim[j] = sim[0] + sigma*(sim[j] - sim[0])
+                            sim[j] = asarray(constraints(sim[j]), dtype='float64')
                             fsim[j] = cost(sim[j]) #XXX: use self._map?
 
         if len(self._stepmon):
